@@ -44,6 +44,13 @@ fn variants(t: &mut Tape, b: &Lzma2Built, full: bool) -> Vec<(Vec<u8>, &'static 
             m[c.off] = val as u8;
             v.push((m, "bad_control", format!("chunk {}: control byte 0x{:02x} -> 0x{:02x}", ci, c.ctrl, val)));
         }
+        if c.ctrl >= 0x83 {
+            // bit 7 cleared: a reserved value whose remaining bits (reset class,
+            // size bits) and whose following fields are exactly those of a valid chunk
+            let mut m = base.clone();
+            m[c.off] = c.ctrl & 0x7F;
+            v.push((m, "bad_control", format!("chunk {}: control byte 0x{:02x} -> 0x{:02x} (bit 7 cleared)", ci, c.ctrl, c.ctrl & 0x7F)));
+        }
         if c.ctrl >= 0xC0 {
             // property byte: every value >= 225 and every value with lc+lp > 4
             let mut vals: Vec<u32> = (225u32..=255).collect();
@@ -256,7 +263,7 @@ impl Property for C17 {
         "fault_enumeration"
     }
     fn rule(&self) -> &'static str {
-        "per seeded valid LZMA2 chunk sequence, at every chunk: control byte := each value 0x03-0x7F; property byte := each value >= 225 and each value with lc+lp > 4; declared compressed size lowered (-1,-2,-3, half, 5, 1); declared uncompressed size ±1, ±many, ±65536 (also on base chunks of 65536*h+{-1,0,1} bytes, the boundaries of the size field); uncompressed chunk cut short at several offsets or declaring more than is left; input cut at every chunk boundary and before the end byte (thorough: every value; quick: 6 sampled values per field); plus chunks that end in an end-of-stream marker short of their declared size. One evaluation = one mutated stream through lzma2_decompress / raw::Lzma2Decoder / xz_decompress; a lenient reference decoder that knows exactly the listed rules decides must-reject; distinct by scenario hash; all non-trivial"
+        "per seeded valid LZMA2 chunk sequence, at every chunk: control byte := each value 0x03-0x7F, and the chunk's own control byte with bit 7 cleared; property byte := each value >= 225 and each value with lc+lp > 4; declared compressed size lowered (-1,-2,-3, half, 5, 1); declared uncompressed size ±1, ±many, ±65536 (also on base chunks of 65536*h+{-1,0,1} bytes, the boundaries of the size field); uncompressed chunk cut short at several offsets or declaring more than is left; input cut at every chunk boundary and before the end byte (thorough: every value; quick: 6 sampled values per field); plus chunks that end in an end-of-stream marker short of their declared size. One evaluation = one mutated stream through lzma2_decompress / raw::Lzma2Decoder / xz_decompress; a lenient reference decoder that knows exactly the listed rules decides must-reject; distinct by scenario hash; all non-trivial"
     }
     fn runs(&self, tier: Tier) -> u64 {
         match tier {
